@@ -721,7 +721,23 @@ class Inliner:
             return None
         prog = self.prog
         callee = recv = None
-        if isinstance(fn, ast.Name) and _is_private(fn.id):
+        local_def = None
+        if isinstance(fn, ast.Name) and root is not None:
+            # a function defined inside the function being read (a local closure): its free variables are the enclosing
+            # locals, looked up when it is *called* - which is exactly what expanding it at the call site gives
+            todo_ = list(ast.iter_child_nodes(root))
+            while todo_:
+                n_ = todo_.pop()
+                if isinstance(n_, ast.FunctionDef):
+                    if n_.name == fn.id:
+                        local_def = n_ if local_def is None else False
+                    continue
+                if isinstance(n_, (ast.AsyncFunctionDef, ast.ClassDef, ast.Lambda)):
+                    continue
+                todo_.extend(ast.iter_child_nodes(n_))
+        if local_def:
+            callee = Func(f.module, f"{f.qualname}.<locals>.{fn.id}", local_def, None)
+        elif isinstance(fn, ast.Name) and _is_private(fn.id):
             node = f.module.top.get(fn.id)
             if isinstance(node, ast.FunctionDef):
                 callee = Func(f.module, fn.id, node, None)
